@@ -202,7 +202,7 @@ pub fn worker(family: Family, seed: u64, cases: u32, big: bool) -> WorkerOut {
         Config {
             cases,
             failure_persistence: None,
-            max_shrink_iters: 4000,
+            max_shrink_iters: 600,
             max_shrink_time: 0,
             max_global_rejects: 100_000,
             ..Config::default()
@@ -308,9 +308,40 @@ pub fn worker(family: Family, seed: u64, cases: u32, big: bool) -> WorkerOut {
     match result {
         Ok(()) => {}
         Err(TestError::Fail(_, minimal)) => {
-            // `last_fail` is the last failing execution = the minimal case
             let _ = minimal;
-            let rep = last_fail.or(first_fail.clone());
+            let mut rep = last_fail.or(first_fail.clone());
+            // structural minimisation on top of proptest's shrinking
+            if let Some(r) = rep.as_mut() {
+                let sig = r.signature.clone();
+                let mut best: Option<Replay> = None;
+                let mut budget = crate::minimize::Budget { runs: 1500 };
+                let mut fails = |c: &Case| -> bool {
+                    out.shrink_runs += 1;
+                    let Ok((run, ordinal)) = run_on_thread(c) else { return false };
+                    let vd = oracle::check(c, &run);
+                    match vd.violations.iter().find(|v| v.sig == sig) {
+                        Some(v) => {
+                            let view = View::new(c, &run);
+                            best = Some(Replay {
+                                property: prop.to_string(),
+                                signature: sig.clone(),
+                                detail: v.detail.clone(),
+                                ordinal,
+                                seed,
+                                shrunk: true,
+                                case: c.clone(),
+                                history_excerpt: view.excerpt(200),
+                            });
+                            true
+                        }
+                        None => false,
+                    }
+                };
+                let _ = crate::minimize::minimize(r.case.clone(), &mut budget, &mut fails);
+                if let Some(b) = best {
+                    *r = b;
+                }
+            }
             out.violation = rep.or(first_fail);
         }
         Err(TestError::Abort(r)) => out.harness_errors.push(format!("proptest aborted: {r}")),
